@@ -252,6 +252,14 @@ func (e *env) genPre(rng *rand.Rand, nd *evmx.Node, ctx common.Address, static b
 		val = "fxvaloper1notavalidator"
 	}
 	amt := func(k int64) *big.Int { return new(big.Int).Mul(big.NewInt(k+int64(nd.ID)), big.NewInt(1e15)) }
+	if mode == "fail" && rng.Intn(2) == 0 {
+		switch m {
+		case "delegateV2", "undelegateV2", "redelegateV2", "transferShares", "transferFromShares":
+			// valid arguments that the keeper rejects (more than the caller has)
+			val = e.vals[0]
+			amt = func(k int64) *big.Int { return new(big.Int).Mul(big.NewInt(k+int64(nd.ID)), new(big.Int).Exp(big.NewInt(10), big.NewInt(27), nil)) }
+		}
+	}
 	var data []byte
 	var err error
 	value := new(big.Int)
@@ -664,7 +672,7 @@ func TestC09(t *testing.T) {
 	e := setup(t, out)
 	e.cnt = out.Count
 	const ample = 6_000_000
-	nProg := hx.N(400, 4000)
+	nProg := hx.N(400, 2000)
 	debug := os.Getenv("VERIF_DEBUG") != ""
 	for pi := 0; pi < nProg; pi++ {
 		out.Reset()
